@@ -19,6 +19,25 @@ CLAIMED = {
             'str, hash, copy and LicenseSymbol(key) on all ordered pairs of a 78-symbol pool of the three kinds and a '
             'stream of key strings (exhaustive short strings + random Unicode).',
             'Flags are modelled as booleans; wrapped user objects are values with the same fields.', 'DESIGN.md section 4 C13'),
+    'C06': ('Coq proof (simplify preserves eval for every valuation of atoms and adds no atom) + exhaustive small trees and '
+            'random trees: structural correspondence model vs boolean.py simplify, truth-table oracle on the implementation',
+            'Theorem for all expression trees and all valuations over the model of DualBase.simplify (flatten, idempotence, '
+            'absorption with index deletion, stable sort); tied to the code by comparing the simplified structure on '
+            'exhaustive and random trees.',
+            'NOT / TRUE / FALSE branches of boolean.py are unreachable from license expressions and not modelled.', 'DESIGN.md section 4 C06'),
+    'C07': ('Coq proof of the canonical shape of simplify results (partial: idempotence and rewrite invariance are decided by '
+            'the correspondence and the rewrite oracle) + rewrite-sequence generator against model and implementation',
+            'Proved: every node of simplify(e) has >= 2 operands, none of its own kind, no two equal operands, operands in '
+            'sort order, recursively; the sort comparison is asymmetric. Not proved in Coq: idempotence and invariance under '
+            'the four rewrites; these are exercised on the implementation (text equality) and on the model (structure equality) '
+            'for every generated tree and rewrite sequence.',
+            'Partial proof, see Props/C07.v header.', 'DESIGN.md section 4 C07'),
+    'C08': ('Coq proof (is_equivalent reflexive, symmetric, transitive, sound for every valuation; contains reflexive, invariant '
+            'under equivalent arguments, WITH contains its parts, contained licenses occur in the container) + pair correspondence '
+            'on three Licensing instances',
+            'Theorems over all pairs / triples of expression trees of the model; the rewrite clause (equivalence of rewritten '
+            'variants) is decided by the oracle and the correspondence, not by a theorem.',
+            'Instance independence is structural in the model (the functions take no table) and is checked on three instances.', 'DESIGN.md section 4 C08'),
 }
 
 NOT_YET = 'check under construction in this session; see DESIGN.md section 4 for the planned theorem'
